@@ -337,6 +337,7 @@ def gen_body(r: Any, G: g.Gen, op: Operator, others: list[Operator]) -> tuple[di
                 for k in [k for k in anns if k.endswith('/kopf-managed')]:
                     del anns[k]
                     stripped = True
+                    tags['stripped'] = tags.get('stripped', []) + [k[:-len('/kopf-managed')]]
             anns = raw.get('metadata', {}).get('annotations', {}) if isinstance(raw.get('metadata'), dict) else {}
             marked = any(k.endswith('/kopf-managed') for k in anns)
             tags['other_marked' if marked and not stripped else 'other_unmarked'] = True
@@ -714,7 +715,8 @@ def flat_cfgs(cfg: dict) -> list[dict]:
     return [x for c in cfg['storages'] for x in flat_cfgs(c)] if cfg['kind'] == 'multi' else [cfg]
 
 
-def check_other_operator(ctx: fw.Ctx, op: Operator, other: Operator, raw: dict, ops: list, tag: str = 'gen') -> None:
+def check_other_operator(ctx: fw.Ctx, op: Operator, other: Operator, raw: dict, ops: list, tag: str = 'gen',
+                         unmarked_legacy: tuple = ()) -> None:
     """Writes of ANOTHER Kopf operator (annotation storages, different prefix) do not change THIS operator's essence."""
     mine = set(all_prefixes(op.describe()))
     theirs = [q for q in all_prefixes(other.describe())]
@@ -724,15 +726,12 @@ def check_other_operator(ctx: fw.Ctx, op: Operator, other: Operator, raw: dict, 
     kind, patch = other.own_write(raw, ops)
     if k0 != 'ok' or kind != 'ok' or not patch:
         return
-    # "invisible iff detectable": a markable prefix that carries no marker on the object and gets none with this write
-    # (possible only for annotations left by a Kopf older than the marker, e.g. when such a record is purged) is
-    # outside the statement; unmarkable 'kopf.*' prefixes stay in (F5).
-    before_anns = _ann(raw)
+    # "invisible iff detectable": annotations which the GENERATOR left without a marker (a Kopf older than the marker)
+    # and which get no marker with this write either (e.g. such a record is purged) are outside the statement.
+    # Everything a current Kopf writes is in: markable prefixes get their marker, unmarkable 'kopf.*' ones are F5.
     for q in sorted({k.split('/', 1)[0] for k in _ann(patch) if '/' in k}):
-        known = q == 'kopf.zalando.org' or q.endswith('.kopf.zalando.org')
-        if not known and not _kopf_unmarkable(q) and f'{q}/kopf-managed' not in before_anns \
-                and _ann(patch).get(f'{q}/kopf-managed') is None:
-            ctx.count('other_operator', 'skipped:undetectable-before-and-after')
+        if q in unmarked_legacy and f'{q}/kopf-managed' not in _ann(raw) and _ann(patch).get(f'{q}/kopf-managed') is None:
+            ctx.count('other_operator', 'skipped:legacy-unmarked')
             return
     after = canon.merge7386(raw, patch)
     k1, e1 = op.essence(after)
@@ -850,7 +849,7 @@ def run(ctx: fw.Ctx) -> int:
         ctx.count('corpus', c['kind'])
 
     # ================= diff / reduce =================
-    n_pairs = ctx.scale(1000, 30000)
+    n_pairs = ctx.scale(1000, 15000)
     for i in range(n_pairs):
         a = G.obj(3, nkeys=(1, 2, 3, 4)) if r.random() < 0.85 else G.json(3)
         b = mutate_json(r, G, a) if r.random() < 0.85 else G.json(3)
@@ -933,7 +932,7 @@ def run(ctx: fw.Ctx) -> int:
         add_diff_case(a, b, src, 'full')
 
     # ================= essence: build, clear o build, old/new/diff, own writes, other operators =================
-    n = ctx.scale(400, 8000)
+    n = ctx.scale(400, 3000)
     for i in range(n):
         op = gen_operator(r)
         others = [gen_operator(r) for _ in range(r.choice([0, 0, 1, 1, 2]))]
@@ -946,7 +945,7 @@ def run(ctx: fw.Ctx) -> int:
             continue
         raw, tags = gen_body(r, G, op, others)
         for t, v in tags.items():
-            if v:
+            if v and t != 'stripped':
                 ctx.count('body_has', t)
         ctx.count('diffbase_cfg', op.dcfg['kind'])
         ctx.count('progress_cfg', op.pcfg['kind'])
@@ -1036,7 +1035,8 @@ def run(ctx: fw.Ctx) -> int:
         check_payload(ctx, op, raw, r)
         if others:
             other = r.choice(others)
-            check_other_operator(ctx, op, other, raw, gen_ops(r, G, other, raw, G.obj(1)))
+            check_other_operator(ctx, op, other, raw, gen_ops(r, G, other, raw, G.obj(1)),
+                                 unmarked_legacy=tuple(tags.get('stripped', [])))
         if i % 2 == 0:
             check_cycle(ctx, op, raw, r, G)
 
